@@ -15,6 +15,11 @@ Model of transfer persistence (property C17):
   `TransferRemovedEvent`), `write_cache()` possible at every one of them, process end at any
   point                                               transfer/manager.py:323-383 → `Op` / `step` / `run`
 * `abort()` of the state classes                      transfer/state.py:186-392   → `abortEffect` (generated table)
+* `TransferManager.read_cache` split at ITS suspension points (the delivery of `TransferAddedEvent`
+  for every entry it registers), other operations in between; the order in which `shelve` hands out
+  the entries is the environment's                    transfer/manager.py:151-171 → `readOrder` / `loadRun` / `Op.loadCall` / `Op.loadStep`
+* records left by another release of the writer (`Op.prev`: the pinned `__getstate__` format, whatever
+  the reader is; `Op.dupKey`: one transfer under both key formats)
 
 The hash (`hashlib.sha256(...).hexdigest()`) is a *parameter* `H : ByteArray → K` of `write`; theorems
 assume `Function.Injective H` explicitly. What is hashed (`keyBytes`) is modelled exactly, and its
@@ -324,11 +329,14 @@ structure Sys (K : Type) where
   pending : List Pending
   there : List Ident
   gone : List Ident
+  /-- `read_cache()` in progress (manager.py:151-171), suspended in a `TransferAddedEvent` listener: the
+  entries `cache.read()` returned that its loop has not reached yet, in the order it will reach them -/
+  loading : Option (List Transfer) := none
 
 def mgrId : Nat := 1
 
 def Sys.init {K : Type} : Sys K :=
-  { mgr := Mgr.empty mgrId, db := [], removedEvents := 0, pending := [], there := [], gone := [] }
+  { mgr := Mgr.empty mgrId, db := [], removedEvents := 0, pending := [], there := [], gone := [], loading := none }
 
 inductive Op
   | new                                       -- empty data directory, new manager
@@ -343,11 +351,18 @@ inductive Op
   | legacy (id : Ident) (lacksAbort carriesOffset oldKey unset : Bool)   -- environment: stored entry rewritten
   | restart                                   -- the process ends here; new manager, `load_data()`
   | sched (offline : List Str)                -- `_get_queued_transfers()` (observation only)
+  | prev (t : Transfer) (oldKey : Bool)       -- environment: an entry as the pinned writer (`persist`) leaves it for `t`,
+                                              -- under the current or the pre-fix key (cache of the previous release)
+  | dupKey (id : Ident)                       -- environment: the stored entry of `id` is ALSO present under the pre-fix key
+  | loadCall (order : List Ident)             -- the process ends here; new manager, `load_data()` as its own task up to
+                                              -- the first suspended `TransferAddedEvent` listener; `order`: the order
+                                              -- in which `shelve` hands out the entries (the environment's choice)
+  | loadStep                                  -- that listener resumes: `read_cache()` up to the next one / its end
 deriving Repr
 
 /-- what the call reports (the driver prints it together with sizes read from the new state) -/
 inductive Out
-  | ok | notFound | busy | noPending | dup | pendingAdd | aborting | announcing | done | loaded | loadError
+  | ok | notFound | busy | noPending | dup | pendingAdd | aborting | announcing | done | loaded | loadError | loading
 deriving DecidableEq, Repr
 
 def setAt {α} : List α → Nat → α → List α
@@ -456,9 +471,60 @@ def doLegacy (H : ByteArray → K) (s : Sys K) (id : Ident) (a o k st : Bool) : 
 def doRestart (s : Sys K) : Sys K × Out :=
   match (Mgr.empty mgrId).load s.db with
   | some m =>
-    ({ s with mgr := m, removedEvents := 0, pending := [], there := m.transfers.map ident, gone := [] }, .loaded)
+    ({ s with mgr := m, removedEvents := 0, pending := [], there := m.transfers.map ident, gone := [],
+              loading := none }, .loaded)
   | none =>
-    ({ s with mgr := Mgr.empty mgrId, removedEvents := 0, pending := [], there := [], gone := [] }, .loadError)
+    ({ s with mgr := Mgr.empty mgrId, removedEvents := 0, pending := [], there := [], gone := [],
+              loading := none }, .loadError)
+
+/-! #### `read_cache()` split at its suspension points
+
+`read_cache` (manager.py:151-171) reads the whole cache (`cache.read()`, synchronous), then for every entry:
+repairs it and `await self.add(entry)`. `add()` checks for an equal listed transfer and appends in ONE
+step (no `await` in between, manager.py:338-345) and then awaits the listeners of `TransferAddedEvent`: a
+listener that suspends lets other tasks run — `add()` / `download()` / `remove()` / `write_cache()` — before
+the loop looks at its next entry. An entry whose identity is listed when the loop reaches it is dropped
+silently (`add()` returns the listed transfer: no event, no suspension). -/
+
+/-- the entries in the order `shelve` hands them out: identities in the order of `order`, the rest behind -/
+def readOrder : List Ident → List Transfer → List Transfer
+  | [], l => l
+  | id :: rest, l => l.filter (fun t => ident t = id) ++ readOrder rest (l.filter (fun t => ident t ≠ id))
+
+/-- the loop of `read_cache` from its current position up to its next suspension (a listener of the
+`TransferAddedEvent` of the entry it has just registered) or its end -/
+def loadRun (s : Sys K) : List Transfer → Sys K × Out
+  | [] => ({ s with loading := none }, .loaded)
+  | x :: rest =>
+    if s.listed (ident x) then loadRun s rest
+    else ({ (doAdd s (repair x).1 false).1 with loading := some rest }, .loading)
+
+/-- the process ends; a new manager starts `load_data()` as its own task -/
+def doLoadCall (s : Sys K) (order : List Ident) : Sys K × Out :=
+  let s0 : Sys K := { s with mgr := Mgr.empty mgrId, removedEvents := 0, pending := [], there := [], gone := [],
+                             loading := none }
+  match readAll s.db with
+  | none => (s0, .loadError)
+  | some l => loadRun s0 (readOrder order l)
+
+def doLoadStep (s : Sys K) : Sys K × Out :=
+  match s.loading with
+  | none => (s, .noPending)
+  | some rest => loadRun s rest
+
+/-- environment: the cache holds an entry for `t` exactly as the pinned writer (`persist` =
+`Transfer.__getstate__` of the pinned release) leaves it — every persisted attribute present, the
+remote-queue mark as it was — under the current key or the key of the release before the key fix -/
+def doPrev (H : ByteArray → K) (s : Sys K) (t : Transfer) (oldKey : Bool) : Sys K × Out :=
+  let k := if oldKey then H (oldKeyBytes t.user t.path t.dir) else H (keyOf t)
+  ({ s with db := Db.put s.db k (persist t) }, .ok)
+
+/-- environment: the stored entry of one identity is also present under the pre-fix key (a cache that was
+written by both releases and never cleaned: one transfer, two keys) -/
+def doDupKey (H : ByteArray → K) (s : Sys K) (id : Ident) : Sys K × Out :=
+  match s.db.find? (fun e => e.2.user = id.1 ∧ e.2.path = id.2.1 ∧ e.2.dir = id.2.2) with
+  | some e => ({ s with db := Db.put s.db (H (oldKeyBytes id.1 id.2.1 id.2.2)) e.2 }, .ok)
+  | none => (s, .notFound)
 
 def step (H : ByteArray → K) (s : Sys K) : Op → Sys K × Out
   | .new => (Sys.init, .ok)
@@ -473,12 +539,22 @@ def step (H : ByteArray → K) (s : Sys K) : Op → Sys K × Out
   | .legacy id a o k st => doLegacy H s id a o k st
   | .restart => doRestart s
   | .sched _ => (s, .ok)
+  | .prev t k => doPrev H s t k
+  | .dupKey id => doDupKey H s id
+  | .loadCall order => doLoadCall s order
+  | .loadStep => doLoadStep s
 
 def run (H : ByteArray → K) (s : Sys K) (ops : List Op) : Sys K := ops.foldl (fun s o => (step H s o).1) s
 
 /-- operations that neither write the cache, nor touch the stored entries, nor end the process -/
 def Op.quiet : Op → Bool
-  | .new | .store | .legacy .. | .restart => false
+  | .new | .store | .legacy .. | .restart | .prev .. | .dupKey .. | .loadCall .. => false
+  | _ => true
+
+/-- operations during which the process lives on and the manager's list does not shrink: everything but
+`remove()` and the end of the process -/
+def Op.keeps : Op → Bool
+  | .new | .restart | .loadCall .. | .rm .. | .rmCall .. | .rmStep .. => false
   | _ => true
 
 end
